@@ -22,18 +22,21 @@ OPS = ["construct", "append", "add_state", "insert", "remove", "pop", "extend", 
 def FLOORS(tier):
     f = {"op:" + o: (40 if tier == "quick" else 400) for o in OPS}
     f.update({"operand:empty-other": 30, "operand:empty-self": 30, "inv-checks": 5000, "continue-on-derived": 300,
-              "operand:equal-but-distinct-copy": 200, "sort:with-key": 50})
+              "operand:equal-but-distinct-copy": 200, "sort:with-key": 50, "values:with-inf": 60, "values:only-inf": 60,
+              "filter:stateful-predicate": 30, "setslice:extended": 20, "operand-kind:setslice:gen": 10, "operand-kind:setslice:iter": 10})
     return f
 
 
 VALUES = [-2, -1, 0, 1, 2.5, -1]
+INF = float("inf")
+POOLS = {"plain": VALUES, "with-inf": [INF, INF, INF, 1, -1, -INF], "only-inf": [INF], "big": [2.0 ** 70, -2.0 ** 70, 1e-300, 0, 3]}
 
 
-def rresult(rng):
+def _rresult(rng, values=VALUES):
     spin = rng.random() < 0.5
     n = rng.randint(0, 3)
     st = {i: (rng.choice((1, -1)) if spin else rng.choice((0, 1))) for i in range(n)}
-    return L.sim.AnnealResult(st, rng.choice(VALUES), spin)
+    return L.sim.AnnealResult(st, rng.choice(values), spin)
 
 
 def check_inv(ctx, op, res, shadow, hist, flags=""):
@@ -74,6 +77,12 @@ def case(ctx, rng, idx):
     hist = []
     kinds = set()
     nonempty_seen = False
+    pool = rng.choice(["plain", "plain", "plain", "with-inf", "only-inf", "big"])
+    ctx.cat("values:" + pool)
+    values = POOLS[pool]
+    hist.append(["values", pool])
+    def rresult(rng):           # every draw of this history uses its pool
+        return _rresult(rng, values)
     for step in range(rng.randint(5, 40)):
         op = rng.choice(OPS)
         ctx.cat("op:" + op)
@@ -96,8 +105,9 @@ def case(ctx, rng, idx):
             if op in ("construct", "extend", "add", "iadd", "setslice"):
                 k = rng.choice([0, 0, 1, 2, 3])
                 items = [rresult(rng) for _ in range(k)]
-                okind = rng.choice(["list", "AnnealResults", "tuple", "gen"]) if op in ("construct", "extend", "iadd") else \
+                okind = rng.choice(["list", "AnnealResults", "tuple", "gen", "iter", "map"]) if op in ("construct", "extend", "iadd", "setslice") else \
                     rng.choice(["list", "AnnealResults"])
+                ctx.cat("operand-kind:%s:%s" % (op, okind))
                 if k == 0:
                     ctx.cat("operand:empty-other")
                     flags = ":empty-other" if not self_empty else ":empty-both"
@@ -112,6 +122,10 @@ def case(ctx, rng, idx):
                         return tuple(items)
                     if okind == "gen":
                         return (x for x in items)
+                    if okind == "iter":
+                        return iter(items)
+                    if okind == "map":
+                        return map(lambda x: x, items)
                     return AR(items)
             # ---- apply to shadow first (decides whether a list would accept) -
             if op == "construct":
@@ -216,9 +230,15 @@ def case(ctx, rng, idx):
             elif op == "setslice":
                 a = rng.choice([None, 0, 1, 2, -1])
                 b = rng.choice([None, 0, 1, 2, 3, -1])
-                desc.append((a, b))
-                shadow[a:b] = items
-                res[a:b] = mk()
+                st = rng.choice([None, None, None, 2, -1])
+                if st is not None:
+                    want = len(shadow[a:b:st])          # an extended slice takes exactly as many elements as it replaces
+                    items[:] = [rresult(rng) for _ in range(want)]
+                    desc[-1] = (okind, [(x.state, x.value, x.spin) for x in items])
+                    ctx.cat("setslice:extended")
+                desc.append((a, b, st))
+                shadow[a:b:st] = items
+                res[a:b:st] = mk()
             elif op == "delslice":
                 a = rng.choice([None, 0, 1, 2, -1])
                 b = rng.choice([None, 0, 1, 2, 3, -1])
@@ -250,10 +270,22 @@ def case(ctx, rng, idx):
                 if out is res:
                     ctx.violation("copy:same-object", "copy returned self", hist + [desc])
             elif op == "filter":
-                t = rng.choice(VALUES)
-                desc.append(t)
-                out = res.filter(lambda x: x.value <= t)
-                derived = (out, [x for x in shadow if x.value <= t])
+                t = rng.choice(values)
+                if rng.random() < 0.35:
+                    # a predicate with memory (drop the first k / keep by mask): the result is what list(filter(...)) gives
+                    mask = [rng.random() < 0.5 for _ in shadow]
+                    desc.append(("mask", mask))
+                    ctx.cat("filter:stateful-predicate")
+
+                    def pred_factory():
+                        it = iter(mask)
+                        return lambda x: next(it, True)
+                    out = res.filter(pred_factory())
+                    derived = (out, list(filter(pred_factory(), shadow)))
+                else:
+                    desc.append(t)
+                    out = res.filter(lambda x: x.value <= t)
+                    derived = (out, [x for x in shadow if x.value <= t])
             elif op == "filter_states":
                 t = rng.randint(0, 3)
                 desc.append(t)
